@@ -312,6 +312,11 @@ func c10ReadAll(sr *schema.StreamReader[string]) (string, error) {
 func c10NodeName(path []string) string { return "n:" + strings.Join(path, "/") }
 
 func c10Lambda(n c10Node, b *c10Barrier) *compose.Lambda {
+	return c10LambdaTyped(n, b, "L"+n.LK)
+}
+
+// the lambda of node n (native paradigm n.LK) declared WithLambdaType(lambdaType)
+func c10LambdaTyped(n c10Node, b *c10Barrier, lambdaType string) *compose.Lambda {
 	body := func(in string) (string, error) {
 		b.wait()
 		if n.Fail {
@@ -319,7 +324,7 @@ func c10Lambda(n c10Node, b *c10Barrier) *compose.Lambda {
 		}
 		return in + ">" + n.Key, nil
 	}
-	typ := compose.WithLambdaType("L" + n.LK)
+	typ := compose.WithLambdaType(lambdaType)
 	switch n.LK {
 	case "s":
 		return compose.StreamableLambda(func(ctx context.Context, in string) (*schema.StreamReader[string], error) {
